@@ -176,11 +176,18 @@ Definition step_conv (s : state) (q : nat) (c : cchoice) : state :=
           | [] => set_q s q (q_set_pc Q CPopOver)
           end
       | CPopOver =>
-          match q_over Q with
-          | [] => set_q s q (q_set_pc (q_set_over Q [] false) CWait)
-          | t :: r =>
-              let Q1 := q_set_over Q r (match r with [] => false | _ => q_mode Q end) in
-              start_task s q Q1 t
+          (* popOverflowTask, one critical section of enqueueMu.  Since the repair 0813a51 it first polls the
+             channel again (tasks sent there since popReadyTask's poll are older than the overflow list);
+             whether the source does so is extracted by the translator (gen/C13_Consts.v). *)
+          match (if pop_overflow_rechecks_channel then chan s (q_ch Q) else []) with
+          | t :: r => start_task (set_chan s (q_ch Q) r) q Q t
+          | [] =>
+              match q_over Q with
+              | [] => set_q s q (q_set_pc (q_set_over Q [] false) CWait)
+              | t :: r =>
+                  let Q1 := q_set_over Q r (match r with [] => false | _ => q_mode Q end) in
+                  start_task s q Q1 t
+              end
           end
       | CRun t => add_log (set_q s q (q_set_pc Q CTop)) (EEnd q t)
       | CWait =>
